@@ -314,7 +314,52 @@ def first_keyword(it, ctx):
     return None
 
 
+BLOCK_STATEMENTS = ('if', 'switch', 'while', 'do', 'for')      # C11 6.8.4p3, 6.8.5p5: selection and iteration statements are blocks
+
+
+def _r039_path(rep, ctx, kwd, kind, where):
+    """one returning path of stmt(): the scope stack (relative to the enclosing block) at every hand-off to a parser"""
+    stack = []
+    nid = 0
+    parts = []          # (parser name, is sub-statement, scopes open, line)
+    for e in ctx.events:
+        if e[0] == 'call' and e[1] == 'enter_scope':
+            nid += 1
+            stack.append(nid)
+        elif e[0] == 'call' and e[1] == 'leave_scope':
+            if not stack:
+                return          # unbalanced: R03.1 scope-paired reports it
+            stack.pop()
+        elif e[0] == 'sub':
+            parts.append((e[1], False, tuple(stack), e[3]))
+        elif e[0] == 'body':
+            parts.append(('stmt', True, tuple(stack), e[2]))
+    if kwd in BLOCK_STATEMENTS:
+        for name, is_body, st, line in parts:
+            rep.ob('R03.9', 'parse.c:stmt:%s:%s-parsed-inside-statement-scope' % (kwd, name), len(st) >= 1,
+                   'a `%s` statement hands %s to %s() without having entered a scope of its own: a selection/iteration statement is a block (C11 6.8.4p3, 6.8.5p5), so a tag or '
+                   'enumerator declared there (sizeof/cast/compound literal of a struct or enum specifier) must go out of scope at the end of the statement; here it is entered into the '
+                   'enclosing block, stays visible after the statement and hides the outer declaration of the same name'
+                   % (kwd, 'a sub-statement' if is_body else 'a part of its header', name), where='parse.c:%d' % line)
+        for i, (name, is_body, st, line) in enumerate(parts):
+            if not is_body or not st:
+                continue
+            for name2, is_body2, st2, line2 in parts[i + 1:]:
+                rep.ob('R03.9', 'parse.c:stmt:%s:sub-statement-scope-closed-before-%s' % (kwd, name2), st[-1] not in st2,
+                       'in a `%s` statement the scope a sub-statement is parsed in is still open when the following part is handed to %s(): each sub-statement is a block of its own '
+                       '(C11 6.8.4p3, 6.8.5p5), so what it declares must not be visible in the rest of the statement (`do (void)sizeof(enum { N = 1 }); while (N);` / the else branch of an if)'
+                       % (kwd, name2), where='parse.c:%d' % line2)
+    elif kwd not in ('block',):
+        for name, is_body, st, line in parts:
+            rep.ob('R03.9', 'parse.c:stmt:%s:%s-parsed-in-enclosing-scope' % (kwd, name), len(st) == 0,
+                   'a `%s` statement hands %s to %s() inside a scope of its own: only selection, iteration and compound statements are blocks (C11 6.8p3, 6.2.1p4); a tag or enumerator declared '
+                   'in a labeled, jump or expression statement belongs to the enclosing block and must stay visible in the statements that follow'
+                   % (kwd, 'its sub-statement' if is_body else 'its expression', name), where='parse.c:%d' % line)
+
+
 def r031(P, rep):
+    rep.rule('R03.9', 'selection and iteration statements (if, switch, while, do, for) are blocks: every part of such a statement (header expressions/declaration and sub-statements) is parsed inside a '
+                      'scope the statement itself entered, a sub-statement\'s scope is closed before any later part is parsed, and no other statement form opens a scope around its parts', floor=12)
     rep.rule('R03.1', 'parsing any statement leaves break/continue/switch context as it found it; loop bodies are parsed with the loop\'s own fresh labels, switch bodies with the switch\'s break label and the enclosing continue label; block scopes are entered and left in pairs', floor=12)
     rep.rule('R03.2', 'case/default are registered on the innermost switch after a null check, and the folded case value reaches the node unnarrowed', floor=4)
     rep.rule('R03.7', 'only the body of a loop/switch is parsed with that construct\'s own break/continue/switch context: every other part of a statement (controlling expression, '
@@ -413,6 +458,8 @@ def r031(P, rep):
                        'the `%s` statement opens a block scope, but the part parsed by %s() is parsed %s: declarations of the for-init would %s (C11 6.8.5p5, 6.2.1p4)'
                        % (kwd, e[1], 'before the scope is entered' if i < first else 'after the scope is left', 'land in the enclosing scope and stay visible after the loop' if i < first else 'no longer be visible there'),
                        where=where, facts={'order': [x[1] for x in evs]})
+        # (b'') which statements are blocks (R03.9)
+        _r039_path(rep, ctx, kwd, kind, where)
         # (c) scopes paired
         depth = 0
         oks = True
